@@ -39,7 +39,8 @@ def doc_apply(eng, doc_action_reprs):
 
 
 class Runner(object):
-  """One engine; the table T is rebuilt whenever the configuration changes and emptied / re-filled at
+  """One engine and one table T per configuration (consecutive histories with the same configuration
+  share it); the table is emptied / re-filled at
   doc-action level (docactions.ReplaceTableData -> Engine.load_table) before every history; a renamed
   or retyped column A is renamed / retyped back first."""
 
@@ -52,36 +53,45 @@ class Runner(object):
 
   def engine(self, cfg):
     key = json.dumps(cfg, sort_keys=True)
-    if self.eng is None or self.used >= ENGINE_REUSE:
+    if self.eng is None or self.used >= ENGINE_REUSE or key != self.key:
+      # a fresh engine for every configuration: trigger dependencies of an earlier table never linger
       self.eng = adapter.new_engine()
       adapter.apply(self.eng, [["InitNewDoc"]])
       self.used = 0
-      self.key = None
-    self.used += 1
-    if key != self.key:
       self.build_table(cfg)
       self.key = key
+    self.used += 1
     return self.eng
 
   def build_table(self, cfg):
     eng = self.eng
-    if TABLE in eng.tables:
-      adapter.apply(eng, [["RemoveTable", TABLE]])
     cols = [{"id": "A", "type": "Int", "isFormula": False},
             {"id": "B", "type": "Int", "isFormula": False},
             {"id": "F", "type": "Any", "isFormula": True, "formula": "$A * 10"}]
-    for kc in cfg:
-      cols.append({"id": kc["id"], "type": "Int", "isFormula": False, "formula": FORMULAS[kc["fm"]],
-                   "recalcWhen": int(kc["when"])})
     reply = adapter.apply(eng, [["AddTable", TABLE, cols]])
     table_ref = reply["retValues"][0]["id"]
-    meta = eng.fetch_table("_grist_Tables_column")
-    ref = {c: rid for rid, c, p in zip(meta.row_ids, meta.columns["colId"], meta.columns["parentId"])
-           if p == table_ref}
+    # trigger columns as test_trigger_formulas.py creates them (AddTable ignores recalcWhen)
+    for kc in cfg:
+      adapter.apply(eng, [["AddColumn", TABLE, kc["id"],
+                           {"type": "Int", "isFormula": False, "formula": FORMULAS[kc["fm"]],
+                            "recalcWhen": int(kc["when"])}]])
+
+    def colrefs():
+      meta = eng.fetch_table("_grist_Tables_column")
+      return {c: (rid, w, d) for rid, c, p, w, d in zip(
+        meta.row_ids, meta.columns["colId"], meta.columns["parentId"], meta.columns["recalcWhen"],
+        meta.columns["recalcDeps"]) if p == table_ref}
+    ref = colrefs()
     for kc in cfg:
       if kc["deps"]:
-        adapter.apply(eng, [["UpdateRecord", "_grist_Tables_column", ref[kc["id"]],
-                             {"recalcDeps": ["L"] + [ref[d] for d in kc["deps"]]}]])
+        adapter.apply(eng, [["UpdateRecord", "_grist_Tables_column", ref[kc["id"]][0],
+                             {"recalcDeps": ["L"] + [ref[d][0] for d in kc["deps"]]}]])
+    ref = colrefs()
+    for kc in cfg:
+      _rid, when, deps = ref[kc["id"]]
+      want = sorted(ref[d][0] for d in kc["deps"])
+      if when != kc["when"] or sorted(deps or []) != want:
+        raise adapter.MachineryError("set-up failed: column %s has recalcWhen %r recalcDeps %r" % (kc["id"], when, deps))
     self.a_name, self.a_numeric = "A", False
 
   def restore_schema(self):
